@@ -307,7 +307,7 @@ def run(tier, seed):
             break
         mism += len(f)
         for j in f[:2]:
-            rep.violation("adapters:model-mismatch", {"broken": "correspondence impl<->Model/Adapters.v", "case": sh[j][:3000]}, no_input=not fails)
+            rep.violation("adapters:model-mismatch", {"broken": "correspondence impl<->Model/Adapters.v", "case": sh[j][:3000]}, no_input=not rep.has_failing_input())
     rep.cov["traces_validated_against_impl"] = len(texts)
     rep.cov["exhaustive"] = True
     rep.notes["model_mismatches"] = mism
